@@ -20,6 +20,12 @@ UT = "hypercorn.utils:"
 LIB_RT = ["interface contracts for Event / TaskGroup / WorkerContext / Logger (contracts/a_runtime.py, b_support.py); both worker implementations are checked against them under C16"]
 STREAM_ASSUME = ["app_send is not re-entered by the application (one send at a time per request)", "the application queue is FIFO (delivery order = put order)"]
 
+WSM = "hypercorn.protocol.ws_stream:"
+WSU = WSM + "WSStream."
+WBU = [WSM + "WebsocketBuffer." + m for m in ("__init__", "extend", "clear", "to_message")]
+HKU = [WSM + "Handshake." + m for m in ("__init__", "is_valid", "accept")]
+LIB_WS = ["assumed contract M_ws for wsproto 1.3 Connection/events (pyvc/models_ws.py): event alphabet, one type per message, send may raise LocalProtocolError; io.BytesIO/StringIO abstracted to a typed payload buffer; split_comma_header / generate_accept_token / server_extensions_handshake uninterpreted"]
+
 PLAN = {
     "C01": {
         "units": [HS + "__init__", HS + "handle", UT + "filter_pseudo_headers", HP + "_create_stream", HP + "_handle_events"],
@@ -38,7 +44,7 @@ PLAN = {
         "level_note": "Trusted: pyvc encoder, library models; client-side parsing not modelled.",
     },
     "C03": {
-        "units": [HS + "handle", HS + "app_send", HP + "handle", HP + "_close_stream", HP + "stream_send"],
+        "units": [HS + "handle", HS + "app_send", WSU + "handle", WSU + "app_send", HP + "handle", HP + "_close_stream", HP + "stream_send"],
         "trusted_base": LIB_H2 + LIB_RT,
         "assumptions": COMMON_ASSUME + STREAM_ASSUME,
         "explanation": "exactly-once disconnect and access record as class invariants stable under the yield rule; nothing is put after the disconnect (callback precondition)",
@@ -46,15 +52,31 @@ PLAN = {
         "level_note": "Trusted: pyvc encoder; rely/guarantee meta-theory; handle() assumed not re-entered (the re-entrant case is finding F4i).",
     },
     "C05": {
-        "units": [HS + "app_send", HP + "stream_send", HP + "_close_stream"],
+        "units": [HS + "app_send", WSU + "app_send", HP + "stream_send", HP + "_close_stream"],
         "trusted_base": LIB_H2 + LIB_RT,
         "assumptions": COMMON_ASSUME + STREAM_ASSUME,
         "explanation": "application failure: app_send(None) emits 500+end when nothing was started and StreamClosed without EndBody otherwise",
         "level_text": "Postconditions of app_send(None) for every state; no EndBody is emitted for an incomplete response.",
         "level_note": "Trusted: pyvc encoder, library models. What the protocol does with StreamClosed on HTTP/2 (no RST_STREAM, finding F5) is demonstrated natively.",
     },
+    "C10": {
+        "units": WBU + [WSU + "handle", WSU + "app_send"],
+        "trusted_base": LIB_WS + LIB_RT,
+        "assumptions": COMMON_ASSUME + STREAM_ASSUME + ["fragmentation, compression and UTF-8 validation are wsproto's"],
+        "explanation": "WebsocketBuffer arithmetic (size = units written, raises iff over the limit, bytes xor text), delivery loop (finished message -> one put, buffer cleared), nothing delivered after an over-limit message, send mapping",
+        "level_text": "Size accounting and the limit are linear-arithmetic postconditions proved for all sizes; the invariant 'buffer holds exactly the message in progress' is proved across every await of the receive loop.",
+        "level_note": "Trusted: pyvc encoder; wsproto event model; payloads abstracted to lengths.",
+    },
+    "C11": {
+        "units": HKU + [WSU + "handle", WSU + "app_send", WSU + "idle"],
+        "trusted_base": LIB_WS + LIB_RT,
+        "assumptions": COMMON_ASSUME + STREAM_ASSUME + ["H11Protocol creates a WSStream for HTTP/1.1 only when the request carries an Upgrade header (precondition ws.handle.pre.h1-upgrade)", "Handshake.__init__ sets upgrade when such a header exists (assumed one-line postcondition)"],
+        "explanation": "is_valid equals the RFC 6455 conditions of the statement; invalid -> 400 and no application; first put is websocket.connect; accept/close/response mapping; disconnect code",
+        "level_text": "Handshake.is_valid is proved equal to the statement's condition for all header values (token/case functions uninterpreted); lifecycle mapping as postconditions of handle/app_send for every state.",
+        "level_note": "Trusted: pyvc encoder, wsproto helpers uninterpreted; the string-level meaning of split/lower is not interpreted.",
+    },
     "C12": {
-        "units": [HS + "app_send", UT + "build_and_validate_headers"],
+        "units": [HS + "app_send", WSU + "app_send", UT + "build_and_validate_headers"] + HKU[2:],
         "trusted_base": LIB_RT,
         "assumptions": COMMON_ASSUME + STREAM_ASSUME,
         "explanation": "rejection table: a call that returns normally was valid for its state; an exception raised into the application leaves nothing emitted; header validation",
@@ -62,7 +84,7 @@ PLAN = {
         "level_note": "Trusted: pyvc encoder; Any-typed application values follow CPython's conversion table as encoded in pyvc/calls.py.",
     },
     "C04": {
-        "units": H2_UNITS + [HS + "handle"],
+        "units": H2_UNITS + [HS + "handle", WSU + "handle"] + WBU[1:2],
         "trusted_base": LIB_H2,
         "assumptions": COMMON_ASSUME + ["byte-level parsing of HTTP/2 frames is h2's; inputs range over everything the assumed h2 contract may return"],
         "explanation": "no client input causes an internal error: generated run-time-exception obligations (no undeclared exception escapes) and class invariants I1/I2 over every event h2 may deliver",
